@@ -18,6 +18,21 @@ fn main() {
                 println!("{id}");
             }
         }
+        "probe" => {
+            // vcheck probe <replay.json> [text]
+            let body: serde_json::Value =
+                serde_json::from_str(&std::fs::read_to_string(&args[2]).expect("read")).expect("json");
+            let table = exmex_verif::tcase::table_from_spec(&body["case"]["table_spec"]);
+            let text = args.get(3).cloned().unwrap_or_else(|| body["case"]["text"].as_str().unwrap_or("").to_string());
+            println!("table: {}", exmex_verif::term::describe_table(&table));
+            println!("text: {text}");
+            std::thread::Builder::new()
+                .stack_size(runner::WORKER_STACK)
+                .spawn(move || exmex_verif::tcase::probe(&table, &text))
+                .unwrap()
+                .join()
+                .unwrap();
+        }
         "replay" => {
             let Some(path) = args.get(2) else { usage() };
             let text = match std::fs::read_to_string(path) {
